@@ -1,3 +1,4 @@
+#include <unistd.h>
 /* Driver for the unmodified pam/pam_whawty.c: provides the few libpam functions the module calls and
  * runs pam_sm_authenticate once.  usage: pamdrv <userfile> <pwfile> <mode> <errno-on-entry> [module options...]
  *   mode: stack  = password on the PAM stack (use_first_pass)   conv = password from the conversation
@@ -30,6 +31,19 @@ void pam_vsyslog(const pam_handle_t *pamh, int priority, const char *fmt, va_lis
   (void)pamh; (void)priority; char buf[2048]; vsnprintf(buf, sizeof buf, fmt, args); /* formatted (exercises the format strings), dropped */ }
 int pam_prompt(pam_handle_t *pamh, int style, char **response, const char *fmt, ...) {
   (void)pamh; (void)style; (void)fmt; *response = strdup(g_pw); return PAM_SUCCESS; }
+
+/* Short writes on the agent's socket: with PAMDRV_WRITECAP=n every write() of the module accepts at most n bytes
+ * (linked with -Wl,--wrap=write), as a stream socket may do at any time. */
+ssize_t __real_write(int fd, const void *buf, size_t n);
+ssize_t __wrap_write(int fd, const void *buf, size_t n)
+{
+  const char *c = getenv("PAMDRV_WRITECAP");
+  if (c && fd > 2) {
+    size_t cap = (size_t)atoi(c);
+    if (cap > 0 && n > cap) n = cap;
+  }
+  return __real_write(fd, buf, n);
+}
 
 int main(int argc, char **argv) {
   if (argc < 5) return 2;
